@@ -27,14 +27,15 @@ type c20File struct {
 }
 
 type c20Case struct {
-	Files []c20File `json:"files"`
-	Size  string    `json:"size"`  // "" (default 4M) | 64K | 256K | 1M | 4M
-	BC    bool      `json:"bc"`    // -bc
-	SC    bool      `json:"sc"`    // -sc
-	Level int       `json:"level"` // -l n ; -1 = flag absent
-	Conc  int       `json:"conc"`  // -c n ; 0 = flag absent
-	Stdin bool      `json:"stdin"` // stdin/stdout operation (first file only)
-	Rerun bool      `json:"rerun"` // compress a longer version of the file first, then the real one (output file exists already)
+	Files     []c20File `json:"files"`
+	Size      string    `json:"size"`                // "" (default 4M) | 64K | 256K | 1M | 4M
+	BC        bool      `json:"bc"`                  // -bc
+	SC        bool      `json:"sc"`                  // -sc
+	Level     int       `json:"level"`               // -l n ; -1 = flag absent
+	Conc      int       `json:"conc"`                // -c n ; 0 = flag absent
+	Stdin     bool      `json:"stdin"`               // stdin/stdout operation (first file only)
+	StdinFile bool      `json:"stdinfile,omitempty"` // stdin is a regular file (shell redirection) instead of a pipe
+	Rerun     bool      `json:"rerun"`               // compress a longer version of the file first, then the real one (output file exists already)
 }
 
 var sizeCodes = map[string]int{"": 7, "64K": 4, "256K": 5, "1M": 6, "4M": 7}
@@ -81,6 +82,11 @@ func shQuote(s string) string { return "'" + strings.ReplaceAll(s, "'", `'\''`) 
 
 // lz4c runs the binary with umask 0 (so that mode equality is meaningful) in dir.
 func lz4c(dir string, stdin []byte, args ...string) (stdout, stderr []byte, code int, err error) {
+	return lz4cIn(dir, stdin, false, args...)
+}
+
+// lz4cIn: with asFile the child's stdin is a regular file (like `lz4c compress < file`), otherwise a pipe.
+func lz4cIn(dir string, stdin []byte, asFile bool, args ...string) (stdout, stderr []byte, code int, err error) {
 	bin := os.Getenv("VERIF_LZ4C")
 	if bin == "" {
 		return nil, nil, 0, fmt.Errorf("VERIF_LZ4C not set")
@@ -92,6 +98,18 @@ func lz4c(dir string, stdin []byte, args ...string) (stdout, stderr []byte, code
 	cmd := exec.Command("/bin/sh", "-c", "umask 0; exec "+strings.Join(q, " "))
 	cmd.Dir = dir
 	cmd.Stdin = bytes.NewReader(stdin)
+	if asFile {
+		path := filepath.Join(dir, ".stdin")
+		if err := os.WriteFile(path, stdin, 0o600); err != nil {
+			return nil, nil, 0, err
+		}
+		f, err := os.Open(path)
+		if err != nil {
+			return nil, nil, 0, err
+		}
+		defer f.Close()
+		cmd.Stdin = f
+	}
 	var so, se bytes.Buffer
 	cmd.Stdout, cmd.Stderr = &so, &se
 	e := cmd.Run()
@@ -166,7 +184,7 @@ func runC20(c c20Case, rec *stat.Rec) *stat.Failure {
 	if c.Stdin {
 		data := c.Files[0].Data.Build()
 		args := append([]string{"compress"}, c.flags()...)
-		so, se, code, err := lz4c(dir, data, args...)
+		so, se, code, err := lz4cIn(dir, data, c.StdinFile, args...)
 		if err != nil {
 			return stat.Failf("harness-problem", "%v", err)
 		}
@@ -176,11 +194,14 @@ func runC20(c c20Case, rec *stat.Rec) *stat.Failure {
 		if f := judgeFrame("stdin", so, data, bsCode); f != nil {
 			return f
 		}
-		so2, se2, code2, _ := lz4c(dir, so, "uncompress")
+		so2, se2, code2, _ := lz4cIn(dir, so, c.StdinFile, "uncompress")
 		if code2 != 0 || !bytes.Equal(so2, data) {
 			return stat.Failf("C20/stdin-uncompress-does-not-restore", "flags [%s]: exit %d, %d bytes out of %d, stderr %q", flagDesc, code2, len(so2), len(data), se2)
 		}
 		rec.Class("mode/stdin-stdout")
+		if c.StdinFile {
+			rec.Class("mode/stdin-is-a-regular-file")
+		}
 	} else {
 		var names []string
 		datas := map[string][]byte{}
@@ -300,6 +321,7 @@ func drawC20(t *rapid.T) c20Case {
 	c.Level = rapid.SampledFrom([]int{-1, -1, 0, 1, 2, 5, 9}).Draw(t, "level")
 	c.Conc = rapid.SampledFrom([]int{0, 0, 1, 2}).Draw(t, "conc")
 	c.Stdin = rapid.IntRange(0, 4).Draw(t, "stdin") == 0
+	c.StdinFile = c.Stdin && rapid.Bool().Draw(t, "stdinfile")
 	c.Rerun = !c.Stdin && rapid.IntRange(0, 5).Draw(t, "rerun") == 0
 	bs := int(blockSizes[sizeCodes[c.Size]])
 	nf := 1
@@ -339,6 +361,6 @@ const c20Rule = "the lz4c binary built from the working tree (alternate go.mod w
 func TestC20(t *testing.T) {
 	rec := stat.For("C20")
 	rec.SetRule(c20Rule)
-	rec.Require("nontrivial", "mode/files-with-different-block-sizes", "mode/stdin-stdout", "mode/several-files", "mode/output-file-existed", "flag/bc", "flag/sc", "flag/l>0", "level/differs-from-fast", "input/empty", "input/bs", "input/k*bs")
+	rec.Require("nontrivial", "mode/stdin-is-a-regular-file", "mode/files-with-different-block-sizes", "mode/stdin-stdout", "mode/several-files", "mode/output-file-existed", "flag/bc", "flag/sc", "flag/l>0", "level/differs-from-fast", "input/empty", "input/bs", "input/k*bs")
 	checkProp(t, "C20", "C20/cli", pick(4000, 60000), drawC20, runC20)
 }
